@@ -119,8 +119,10 @@ func expectServerScenario(sc string, cell c27Cell, peer string) string {
 		"expired_intermediate", "missing_intermediate", "bad_cert_signature", "subst_key":
 		return "fail"
 	case "flip_signature":
-		if cell.kx == "rsa" {
-			return "skip" // the RSA key exchange has no server signature
+		if cell.kx == "rsa" || cell.kx == "dhe_rsa" {
+			// the RSA key exchange has no server signature; the DHE server code insists on a concrete
+			// *rsa.PrivateKey, so a signing shim cannot be configured (wire_flip_skx covers DHE)
+			return "skip"
 		}
 		return "fail"
 	case "wire_flip_skx":
@@ -481,6 +483,15 @@ func (row c27Row) run(c *core.Ctx) {
 		if verifier.OK || verifier.Complete {
 			c.Violation(fmt.Sprintf("bad_credentials_accepted:%s:%s:%s", label, cellKey, row.Kind+"/"+row.CKind),
 				fmt.Sprintf("the %s must refuse, but Handshake returned %v (complete=%v); other side %v", vname_, verifier.Err, verifier.Complete, other.Err), row.ID, obs)
+			return
+		}
+		// the refusal must come from the side that is supposed to detect the problem, not from the liar giving up first
+		detector, dname := verifier, vname_
+		if !isClientAuth && row.KX == "rsa" && row.Scenario == "subst_key" {
+			detector, dname = ss, "server (Finished check: the client encrypted to the presented key)"
+		}
+		if !localError(detector.Err) {
+			c.Violation("undecided:refusal_not_raised_by_detector:"+label+":"+cellKey, fmt.Sprintf("expected %s to detect; its error is %v, peer error %v", dname, detector.Err, other.Err), row.ID, obs)
 			return
 		}
 		// TLS <= 1.2: a refused handshake cannot leave the other side believing it completed
